@@ -118,6 +118,8 @@ def addOptionWith (fold : Str → Str) (x509 : Bool) (o : Opts) (option : Str) :
   else if option.contains '=' then
     let (name, value) := splitEq option
     let name := fold name
+    -- `if self.options.get(option) is True: raise ValueError` (an option given as a flag and then with a value)
+    if (match optGet o name with | some .flag => true | _ => false) then .error "ValueError" else
     match handlerOf name with
     | none =>
       match optGet o name with
@@ -159,7 +161,10 @@ def addOptionWith (fold : Str → Str) (x509 : Bool) (o : Opts) (option : Str) :
           | some (.subjects l) => .ok (optSet o name (.subjects (l ++ [value])))
           | some _ => .error "AttributeError"
       else .error "model:unknown-handler"
-  else .ok (optSet o (fold option) .flag)
+  else
+    -- `if option in self._handlers: raise ValueError('Missing value ...')`
+    if (handlerOf (fold option)).isSome then .error "ValueError"
+    else .ok (optSet o (fold option) .flag)
 
 /-- `OptionsParser._add_option` as it is in the tree under check -/
 def addOption (x509 : Bool) (o : Opts) (option : Str) : Except String Opts :=
